@@ -3,9 +3,13 @@ package c14
 import (
 	"encoding/json"
 	"fmt"
+	"github.com/brutella/hc/db"
 	"os"
+	"reflect"
 	"strings"
 	"testing"
+	"verifharness/fixture"
+	"verifharness/refctl"
 
 	"github.com/brutella/hc/accessory"
 	"github.com/brutella/hc/service"
@@ -456,6 +460,141 @@ func dedupStrings(s []string) []string {
 			seen[x] = true
 			out = append(out, x)
 		}
+	}
+	return out
+}
+
+// TestC14Transport: the same invariants for the attribute database as a transport publishes it. The
+// accessories are handed to hc.NewIPTransport (first one and the rest, as an application does), the
+// transport is started and a verified controller fetches /accessories: accessory ids unique, non-zero and
+// the ones the application gave explicitly; instance ids unique within each accessory; the served document
+// lists the objects in order with the objects' ids.
+func TestC14Transport(t *testing.T) {
+	fixture.Quiet()
+	rapid.Check(t, func(t *rapid.T) {
+		n := rapid.IntRange(1, 5).Draw(t, "naccs")
+		var accs []*accessory.Accessory
+		var explicit []uint64
+		used := map[uint64]bool{}
+		anyExplicit, firstExplicit := false, false
+		for i := 0; i < n; i++ {
+			ctor := registry.Accessories[rapid.IntRange(0, len(registry.Accessories)-1).Draw(t, "ctor")]
+			args := registry.DefaultArgs(fmt.Sprintf("t%d", i))
+			var id uint64
+			if rapid.IntRange(0, 2).Draw(t, "explicit") == 0 {
+				// explicit ids far from the automatic ones (1, 2, ...): the container refuses an accessory whose id is
+				// taken and the transport then publishes without it, which the property says nothing about
+				id = uint64(rapid.IntRange(50, 58).Draw(t, "aid"))
+				if used[id] {
+					id = 0 // explicit duplicates are rejected by the constructor of the transport: not this test
+				}
+				used[id] = id != 0
+			}
+			args.Info.ID = id
+			a, _, err := registry.NewAccessory(ctor, args)
+			if err != nil {
+				t.Skip("unusable constructor (C15)")
+			}
+			accs = append(accs, a)
+			explicit = append(explicit, id)
+			if id != 0 {
+				anyExplicit = true
+				if i == 0 {
+					firstExplicit = true
+				}
+			}
+		}
+		cls := []string{"transport-built-database"}
+		if anyExplicit {
+			cls = append(cls, "transport:explicit-ids")
+		}
+		if firstExplicit && n > 1 {
+			cls = append(cls, "transport:first-accessory-explicit-id")
+		}
+		stats.Case(stats.Hash("transport", fmt.Sprint(explicit), n), n > 1, cls, func() interface{} {
+			return map[string]interface{}{"accessories": n, "explicit_ids": fmt.Sprint(explicit)}
+		})
+		dir := fixture.ScratchDir("c14t")
+		defer os.RemoveAll(dir)
+		ctrl := refctl.NewController("c14-controller", []byte("c14"))
+		d, _ := db.NewDatabase(dir)
+		d.SaveEntity(db.NewEntity(ctrl.ID, ctrl.LTPK, nil))
+		acc, err := fixture.StartTransport(dir, "03145154", false, accs[0], accs[1:]...)
+		if err != nil {
+			if strings.HasPrefix(err.Error(), "INFRA") {
+				t.Skipf("%v", err)
+			}
+			// automatic ids may collide with explicit ones chosen later; the constructor says so
+			if strings.Contains(err.Error(), "duplicate") {
+				return
+			}
+			t.Fatalf("NewIPTransport: %v (explicit ids %v)", err, explicit)
+		}
+		defer acc.StopAsync()
+		ent, _ := d.EntityWithName(acc.Txt()["id"])
+		cl, err := refctl.Dial(acc.Addr)
+		if err != nil {
+			t.Skipf("INFRA: %v", err)
+		}
+		defer cl.Close()
+		if err := refctl.VerifyAndSecure(cl, ctrl, ent.PublicKey, []byte("c14e")); err != nil {
+			t.Fatalf("verify: %v", err)
+		}
+		r, err := cl.Do("GET", "/accessories", "", nil)
+		if err != nil || r.Status != 200 {
+			t.Fatalf("GET /accessories: %v %v", err, r)
+		}
+		var doc struct {
+			Accessories []struct {
+				Aid      uint64 `json:"aid"`
+				Services []struct {
+					Iid             uint64 `json:"iid"`
+					Characteristics []struct {
+						Iid uint64 `json:"iid"`
+					} `json:"characteristics"`
+				} `json:"services"`
+			} `json:"accessories"`
+		}
+		if err := json.Unmarshal(r.Body, &doc); err != nil {
+			t.Fatalf("/accessories does not parse: %v", err)
+		}
+		if len(doc.Accessories) != n {
+			t.Fatalf("/accessories lists %d accessories, %d were published (explicit ids %v)", len(doc.Accessories), n, explicit)
+		}
+		seen := map[uint64]bool{}
+		for i, ja := range doc.Accessories {
+			if ja.Aid == 0 || seen[ja.Aid] {
+				t.Fatalf("/accessories: accessory %d has aid %d (zero or used twice); served aids %v, explicit ids %v", i, ja.Aid, aidsOf(doc.Accessories, func(k int) uint64 { return doc.Accessories[k].Aid }), explicit)
+			}
+			seen[ja.Aid] = true
+			if explicit[i] != 0 && ja.Aid != explicit[i] {
+				t.Fatalf("/accessories: accessory %d was given the id %d, it is served with aid %d (explicit ids %v)", i, explicit[i], ja.Aid, explicit)
+			}
+			if ja.Aid != accs[i].ID {
+				t.Fatalf("/accessories: accessory %d is served with aid %d, the object carries %d", i, ja.Aid, accs[i].ID)
+			}
+			iids := map[uint64]bool{}
+			for _, s := range ja.Services {
+				if s.Iid == 0 || iids[s.Iid] {
+					t.Fatalf("/accessories: aid %d: service iid %d is zero or used twice", ja.Aid, s.Iid)
+				}
+				iids[s.Iid] = true
+				for _, c := range s.Characteristics {
+					if c.Iid == 0 || iids[c.Iid] {
+						t.Fatalf("/accessories: aid %d: characteristic iid %d is zero or used twice", ja.Aid, c.Iid)
+					}
+					iids[c.Iid] = true
+				}
+			}
+		}
+	})
+}
+
+func aidsOf(xs interface{}, f func(int) uint64) []uint64 {
+	var out []uint64
+	n := reflect.ValueOf(xs).Len()
+	for i := 0; i < n; i++ {
+		out = append(out, f(i))
 	}
 	return out
 }
